@@ -102,6 +102,25 @@ fn fresh_key_material() {
 #[cfg(not(feature = "core"))]
 fn fresh_key_material() {}
 
+// the authentic token under every OTHER header text - the seven other protocols' (whether or not they are compiled into this
+// build) and headers that no protocol has - must be refused by this protocol's entry point
+const OTHER_HEADERS: [&str; 16] = ["v1.local.", "v2.local.", "v3.local.", "v4.local.", "v1.public.", "v2.public.", "v3.public.", "v4.public.",
+  "v0.local.", "v5.local.", "v9.public.", "v4.Local.", "V4.local.", "v4.locals.", "v3.", "a.b."];
+macro_rules! refused_under_other_headers {
+  ($own:literal, $token:expr, |$t:ident| $parse:expr) => {
+    for h in OTHER_HEADERS {
+      if h == concat!($own, ".") {
+        continue;
+      }
+      let relabelled = format!("{}{}", h, &$token[concat!($own, ".").len()..]);
+      let $t: &str = relabelled.as_str();
+      if $parse.is_ok() {
+        fail(&format!(concat!($own, ": its own token was accepted under the header {:?}"), h));
+      }
+    }
+  };
+}
+
 // ---------------------------------------------------------------- key helpers
 macro_rules! local_keys {
   ($V:ident, $key:ident) => {
@@ -171,6 +190,7 @@ mod core_layer {
         if back != MSG {
           fail(concat!($label, " core: known-answer token decrypts to something else"));
         }
+        refused_under_other_headers!($label, token, |t| Paseto::<$V, Local>::try_decrypt(t, &key, Footer::from(FOOT)));
         say(concat!("OK ", $label, " core"));
       }
     };
@@ -230,6 +250,7 @@ mod core_layer {
         if back != MSG {
           fail(concat!($label, " core: known-answer token decrypts to something else"));
         }
+        refused_under_other_headers!($label, token, |t| Paseto::<$V, Local>::try_decrypt(t, &key, Footer::from(FOOT), ImplicitAssertion::from(ASSERT)));
         say(concat!("OK ", $label, " core"));
       }
     };
@@ -250,6 +271,7 @@ mod core_layer {
     if back != MSG || !token.starts_with("v1.public.") {
       fail("v1.public core round trip mismatch");
     }
+    refused_under_other_headers!("v1.public", token, |t| Paseto::<V1, Public>::try_verify(t, &pk, Footer::from(FOOT)));
     say("OK v1.public core");
   }
   #[cfg(feature = "use_v2_public")]
@@ -266,6 +288,7 @@ mod core_layer {
     if token != KAT_V2_PUBLIC {
       fail(&format!("v2.public core: token differs from the specification's known answer (Ed25519 signatures are deterministic): {}", token));
     }
+    refused_under_other_headers!("v2.public", token, |t| Paseto::<V2, Public>::try_verify(t, &pk, Footer::from(FOOT)));
     say("OK v2.public core");
   }
   #[cfg(feature = "use_v3_public")]
@@ -295,6 +318,7 @@ mod core_layer {
         fail("v3.public core: token signed with a fresh key has the wrong header");
       }
     }
+    refused_under_other_headers!("v3.public", token, |t| Paseto::<V3, Public>::try_verify(t, &pk, Footer::from(FOOT), ImplicitAssertion::from(ASSERT)));
     say("OK v3.public core");
   }
   #[cfg(feature = "use_v4_public")]
@@ -318,6 +342,7 @@ mod core_layer {
     if token != KAT_V4_PUBLIC {
       fail(&format!("v4.public core: token differs from the specification's known answer (Ed25519 signatures are deterministic): {}", token));
     }
+    refused_under_other_headers!("v4.public", token, |t| Paseto::<V4, Public>::try_verify(t, &pk, Footer::from(FOOT), ImplicitAssertion::from(ASSERT)));
     say("OK v4.public core");
   }
 }
